@@ -25,6 +25,18 @@ func c10Defs() map[string]TableDef {
 	}
 }
 
+// c10SpillTables: 14 tables of 4 long-named columns - their rows in the columns catalog do not fit one
+// catalog page (the "catalog-spill" seed).
+func c10SpillTables() []TableDef {
+	var out []TableDef
+	for i := 0; i < 14; i++ {
+		n := fmt.Sprintf("w%02d", i)
+		long := "a_column_with_a_rather_long_name_"
+		out = append(out, TableDef{Name: n, Cols: []ColDef{{long + "i", TInt}, {long + "f", TFloat}, {long + "s", TStr}, {long + "j", TInt}}})
+	}
+	return out
+}
+
 func c10Stmts() []*Stmt {
 	ins := func(t string, cols []string, row ...any) *Stmt {
 		return &Stmt{Kind: "insert", Table: t, Cols: cols, Rows: [][]any{row}}
@@ -52,6 +64,26 @@ type c10Params struct {
 func c10Base(p c10Params) *WorldCfg {
 	cfg := &WorldCfg{Prop: "C10", Driver: "c10", MemKB: p.MemKB, Defs: c10Defs(), Stmts: c10Stmts()}
 	order := []string{"ta", "tb", "tc"}
+	nSeedTables := 0
+	if p.Seed == "catalog-spill" {
+		long := "a_column_with_a_rather_long_name_"
+		for _, td := range c10SpillTables() {
+			cfg.Defs[td.Name] = td
+			cfg.SeedCreate = append(cfg.SeedCreate, td.Name)
+			nSeedTables++
+		}
+		cols := []string{long + "i", long + "f", long + "s", long + "j"}
+		cfg.SeedStmts = []*Stmt{
+			{Kind: "insert", Table: "w00", Cols: cols, Rows: [][]any{{int32(1), float32(1.5), "first", int32(10)}}},
+			{Kind: "insert", Table: "w13", Cols: cols, Rows: [][]any{{int32(2), float32(2.5), "last", int32(20)}}},
+		}
+		// a short alphabet: the point of this seed is CREATE TABLE and restarts on a catalog of two pages
+		cfg.Stmts = []*Stmt{
+			{Kind: "insert", Table: "ta", Cols: []string{"a"}, Rows: [][]any{{int32(1)}}},
+			{Kind: "insert", Table: "w07", Cols: cols, Rows: [][]any{{int32(3), float32(3.5), "middle", int32(30)}}},
+			{Kind: "insert", Table: "tb", Cols: []string{"b", "s"}, Rows: [][]any{{int32(10), "ten"}}},
+		}
+	}
 	if p.Seed == "tb-page-full" {
 		// tb's first heap page is one row short of full: the next long row allocates a second page
 		cfg.SeedCreate = []string{"ta", "tb"}
@@ -61,7 +93,7 @@ func c10Base(p c10Params) *WorldCfg {
 	}
 	cfg.Ops = func(w *World) []string {
 		var ops []string
-		n := len(w.model.Order)
+		n := len(w.model.Order) - nSeedTables
 		if n < p.MaxTables {
 			// tables may be created in either of two orders so that oids and page ids differ between histories
 			for _, t := range order {
@@ -171,7 +203,7 @@ func init() {
 		},
 		Assume: []string{
 			"auto-commit statements; background threads off (hook H2); crash restart = process death at a statement boundary (crash points inside statements belong to C01/C02)",
-			"up to 3 tables of arity 1-3 over INT/FLOAT/VARCHAR, created in any order; pool 128 KB",
+			"up to 3 tables of arity 1-3 over INT/FLOAT/VARCHAR, created in any order; pool 128 KB; seed catalog-spill: 14 four-column tables with long column names (the columns catalog spans two pages), pool 2 MB",
 		},
 		Run: func(c *core.Ctx) {
 			p := c10Params{MemKB: 128, MaxTables: 3, MaxRest: 2, Crash: true}
@@ -180,9 +212,13 @@ func init() {
 				p.MaxRest = 3
 				depth = 7
 			}
-			for _, seed := range []string{"empty", "tb-page-full"} {
+			for _, seed := range []string{"empty", "tb-page-full", "catalog-spill"} {
 				p := p
 				p.Seed = seed
+				if seed == "catalog-spill" {
+					// 14 x 4 indexed columns keep 112 index pages pinned: a large pool; two restarts are the point
+					p.MemKB, p.MaxTables, p.Crash = 2048, 2, false
+				}
 				core.BFS(c, core.SeqConfig{Name: "c10/" + seed, Params: p, Fresh: func() core.Instance { return NewWorld(c10Cfg(p)) }, MaxDepth: depth, SplitDepth: 2})
 			}
 		},
